@@ -219,7 +219,7 @@ def u_get_row(U):
         return [('Q-is-the-partial-chain', Q.t == T.chain(arr, ix, j)),
                 ('Q-shape', z3.And(Z(Q.shape[0]) == 1, Z(Q.shape[1]) == T.d2(arr[j])))]
 
-    ex = U.executor(fn, loops={0: {'inv': inv}}, axioms=AXA)
+    ex = U.executor(fn, loops={0: {'inv': inv, 'header': 'range(1, d)'}}, axioms=AXA)     # the invariant is the LEFT partial chain
     ex.mode = 'ematch'
     st.vars.update(Y=Y, i=i, _to_item=False)
     pre = tt_prefix(arr, d) + [T.index_ok(ix, arr, d)]
